@@ -16,9 +16,7 @@ def functions():
         "mpr_intersection": (lambda a, b: mpr.mpr_intersection(a, b), True, None),
         # the Nesterov variants dispatch on type(collider): real collider objects, no counting proxies
         "gjk_nesterov_accelerated_intersection": (lambda a, b: gjk.gjk_nesterov_accelerated_intersection(a, b), False, None),
-        "gjk_nesterov_accelerated_intersection[acc]": (lambda a, b: gjk.gjk_nesterov_accelerated(a, b, use_nesterov_acceleration=True)[0], False, None),
         "gjk_nesterov_accelerated_primitives_intersection": (lambda a, b: gjk.gjk_nesterov_accelerated_primitives_intersection(a, b), False, PRIM),
-        "gjk_nesterov_accelerated_primitives_intersection[acc]": (lambda a, b: gjk.gjk_nesterov_accelerated_primitives(a, b, use_nesterov_acceleration=True)[0], False, PRIM),
     }
 
 
@@ -112,7 +110,7 @@ def run(tier, seed):
     res.coverage["exact"] = sum(1 for r in recs if r["exact"])
     res.coverage["distinct_nontrivial"] = len({chash([m["A"], m["B"]]) for m in meta.values()})
     res.coverage["rule"] = ("the scenes of C01 (lattice bodies, all offsets incl. touching / nested / identical, lifts) through the five "
-                            "boolean tests (Nesterov variants with and without acceleration, on real collider objects); TLC derives "
+                            "boolean tests (the two Nesterov tests as exported, i.e. without acceleration, on real collider objects); TLC derives "
                             "'clear gap' from the certified exact core distance; 'deep overlap' is a measured sufficient condition")
     res.coverage["samples"] = [meta[recs[0]["id"]], recs[0], recs[len(recs) // 2]]
     res.assumptions = ["deep overlap is established by depth lower bounds at candidate points (sufficient, not necessary)"]
